@@ -14,11 +14,13 @@ writer makes on the lock cache or a segment file:
   spawn rm id                       up to its first call (Remove for rm)                 -> start [=> result]
   step <i>                          writer i makes its next call and runs up to the one after -> <event> [=> result]
   giveup <i>                        the same, and its lock-retry time has lapsed
-events: `lk+ <key>` `lk- <key>` (DualLock granted / refused), `ul <key>`, `rd <seg>.<block>`, `wr <seg>.<block>`;
+events: `lk+ <key>` `lk- <key>` (DualLock granted / refused), `ul <key>`, `rd <seg>.<block>`, `wr <seg>.<block>`,
+`mk <seg>` (Open with O_CREATE + Truncate of a segment file found missing);
 keys: `S<block>.<slot>` (findAndAdd), `B<seg>.<block>.<slot>` (updateFileBlockRegion; slot 0 = the block),
-`I<id>` (Update). result: ok | err | err:full.
+`I<id>` (Update), `P<seg>` (setupNewFile). result: ok | err | err:full | err:busy (preallocation lock refused).
 Started with `--legacy` the driver runs the write probe of the unrepaired tree; with `--perslot` the block
-read-modify-write locks the slot instead of the block (the seeded change of the mutation trial).
+read-modify-write locks the slot instead of the block, with `--trunc` setupNewFile opens with O_TRUNC (the seeded
+changes of the mutation trials).
 -/
 namespace Sop.Driver.C21
 open Sop.Driver Sop.RegistryMap
@@ -29,6 +31,7 @@ def showKey : RegistryMW.Key → String
   | .slot b s => s!"S{b}.{s}"
   | .blk seg b s => s!"B{seg}.{b}.{s}"
   | .id i => s!"I{i.1}:{i.2}"
+  | .prealloc seg => s!"P{seg}"
 
 def showEv : RegistryMW.Ev → String
   | .lk true k => s!"lk+ {showKey k}"
@@ -36,6 +39,7 @@ def showEv : RegistryMW.Ev → String
   | .ul k => s!"ul {showKey k}"
   | .rd seg b => s!"rd {seg}.{b}"
   | .wr seg b => s!"wr {seg}.{b}"
+  | .mk seg => s!"mk {seg}"
   | .none => "idle"
 
 def showRes : Option RegistryMW.Res → String
@@ -43,6 +47,7 @@ def showRes : Option RegistryMW.Res → String
   | some .ok => " => ok"
   | some .err => " => err"
   | some .full => " => err:full"
+  | some .busy => " => err:busy"
 
 def parseKind : String → Option RegistryMW.Kind
   | "add" => some .add
@@ -143,12 +148,12 @@ def step (s : S) (ws : List String) : S × String :=
     let ((_, st'), o) := stepSeq (mc.c, sys.st) ws
     ((mc, { sys with st := st' }), o)
 
-def reset (legacy perSlot : Bool) (hdr : List String) : S :=
+def reset (legacy perSlot trunc : Bool) (hdr : List String) : S :=
   match hdr with
-  | ["md", n] => ({ c := { md := (n.toNat?).getD 1, legacy := legacy }, perSlot }, { st := St.init })
-  | _ => ({ c := { md := 1, legacy := legacy }, perSlot }, { st := St.init })
+  | ["md", n] => ({ c := { md := (n.toNat?).getD 1, legacy := legacy }, perSlot, trunc }, { st := St.init })
+  | _ => ({ c := { md := 1, legacy := legacy }, perSlot, trunc }, { st := St.init })
 
 end Sop.Driver.C21
 
 def main (args : List String) : IO Unit :=
-  Sop.Driver.runLoop (Sop.Driver.C21.reset (args.contains "--legacy") (args.contains "--perslot")) Sop.Driver.C21.step
+  Sop.Driver.runLoop (Sop.Driver.C21.reset (args.contains "--legacy") (args.contains "--perslot") (args.contains "--trunc")) Sop.Driver.C21.step
